@@ -210,7 +210,7 @@ class RenderContext:
                 return obj["size"]
             except (KeyError, IndexError, TypeError):
                 if isinstance(obj, Sized):
-                    return len(obj)
+                    return _len(obj)
                 raise
         if key == "first":
             try:
@@ -247,7 +247,7 @@ class RenderContext:
                 return await _get_item(obj, "size")
             except (KeyError, IndexError, TypeError):
                 if isinstance(obj, Sized):
-                    return len(obj)
+                    return _len(obj)
                 raise
         if key == "first":
             try:
@@ -485,6 +485,16 @@ class BuiltIn(Mapping[str, object]):
 
 
 builtin = BuiltIn()
+
+
+def _len(obj: Sized) -> int:
+    try:
+        return len(obj)
+    except OverflowError:
+        if isinstance(obj, range) and obj.step == 1:
+            # The length of a long range does not fit the interpreter's `len`.
+            return max(obj.stop - obj.start, 0)
+        raise
 
 
 RE_PROPERTY = re.compile(r"[\u0080-\uFFFFa-zA-Z_][\u0080-\uFFFFa-zA-Z0-9_-]*")
